@@ -87,6 +87,7 @@ func shape(prog *chain.Program) (siblings, useBetween, routeAfterGroup bool) {
 func prop(t *rapid.T) {
 	ev.Case()
 	w := chain.NewWorld()
+	w.Mounted = true // every request is repeated through an http.StripPrefix mount
 	opts := model.Options{Strict: rapid.IntRange(0, 3).Draw(t, "strict") == 0}
 	cfg := chain.ProgCfg{
 		MaxDepth: rapid.IntRange(1, ev.Pick(4, 6)).Draw(t, "maxDepth"), MaxMw: 2, MaxStmts: ev.Pick(4, 5),
